@@ -9,15 +9,17 @@ LEVEL = 'proof'
 RULE = ('corpus (design-phase witnesses); exhaustive scope: every boolean image of shape 3x4, 2x2x3 and the smaller '
         'grids (thorough: all; quick: a seeded slice); random 1-4 D boolean/integer images x 7 layouts x both metrics: '
         'strongly elongated shapes (1xn, nx1x1, 1x1xn, n), single background pixels in corners, sparse/dense background, '
-        'all-foreground, all-background; gvoronoi on 2-D label images (ties included, compared on the set of nearest '
+        'all-foreground, all-background; gvoronoi on 1-4 D label images (ties included, compared on the set of nearest '
         'labels); the 1-D kernel _distance.dt on arbitrary sampled integer functions; zero-sized and 0-d inputs in '
-        'isolated processes. Non-trivial = some foreground pixel has a background pixel to measure to; '
+        'isolated processes; size-threshold stream: lines of 2^16 +- 1 and more pixels inside 1-4 D arrays (distance and '
+        'gvoronoi, labels > 65529), judged with the Lean specification alone. Non-trivial = some foreground pixel has a background pixel to measure to; '
         'distinct = distinct protocol line + layout + metric.')
 ASSUMPTIONS = ['axis lengths < 2^12: the intersection abscissae of the C kernel are single correctly rounded double divisions '
                'of integers < 2^53 and are only compared with each other / with integers; the model computes them in exact '
                'rationals (same comparison outcomes in this range)',
                'metric="euclidean" is compared bit-for-bit with the correctly rounded square root of the exact integer',
-               'gvoronoi: 2-D label images (the function raises RuntimeError for other ranks); at least one labelled pixel '
+               'gvoronoi: label images of rank >= 1 (rank 2 through one `_distance.dt` call, every other rank through the per-axis '
+               'line loop, as `distance`); at least one labelled pixel '
                '(otherwise the statement names no label to assign); compared on membership in the set of nearest labels, '
                'not on which equidistant label is chosen',
                'zero-sized / 0-d inputs: only "no crash, a Python exception or an array of the input shape" is required']
@@ -105,7 +107,7 @@ def _eval_single(cases):
             lines.append(_line('distl' if c.get('lite') else 'dist', c['shape'], [int(x != 0) for x in c['data']])
                          + (' eucl=1' if c.get('metric', 'euclidean2') == 'euclidean' else ''))
         elif k == 'gvor':
-            lines.append(_line('gvorl' if c.get('lite') else 'gvor', c['shape'], c['data']) if len(c['shape']) == 2 else 'ping')
+            lines.append(_line('gvorl' if c.get('lite') else 'gvor', c['shape'], c['data']) if len(c['shape']) >= 1 else 'ping')
         elif k == 'dt1d':
             lines.append(f"c05 kind=dt1d data={gen.enc_arr(c['data'])}")
         else:
@@ -116,6 +118,8 @@ def _eval_single(cases):
         f = []
         nontriv = False
         tags = dict(kind=k, ndim=len(c.get('shape', [])), layout=c.get('layout', 'C'), dtype=c.get('dtype', '-'))
+        if c.get('size'):
+            tags['size'] = c['size']
         if k == 'dist':
             A = _mk(c)
             before = A.copy()
@@ -133,14 +137,18 @@ def _eval_single(cases):
         elif k == 'gvor':
             A = _mk(c)
             before = A.copy()
-            if len(c['shape']) != 2:
+            got = None
+            if len(c['shape']) >= 1:
                 try:
-                    mh.segmentation.gvoronoi(A)
-                    tags['outcome'] = 'returned'
+                    got = np.asarray(mh.segmentation.gvoronoi(A))
                 except Exception as e:
+                    if len(c['shape']) == 2:
+                        raise
+                    # round 4: gvoronoi runs the per-axis kernel for every rank (it used to raise RuntimeError from
+                    # `_distance.dt` for label images that are not 2-D); the statement names no rank restriction
                     tags['outcome'] = type(e).__name__
-            else:
-                got = np.asarray(mh.segmentation.gvoronoi(A))
+                    f.append(dict(kind='property', key='gvoronoi:ndimN:raises', detail=dict(error=repr(e)[:200])))
+            if got is not None:
                 g = [int(x) for x in got.ravel(order='C').tolist()]
                 if got.shape != tuple(c['shape']) or got.dtype != A.dtype:
                     f.append(dict(kind='property', key='gvoronoi:shape-dtype', detail=dict(shape=got.shape, dtype=str(got.dtype))))
@@ -358,8 +366,8 @@ def cases(rng, tier):
             rands.append(dict(kind='dist', shape=shape, dtype=dtype, data=_rand_bw(rng, shape, dtype),
                             layout=rng.choice(gen.LAYOUTS), metric=rng.choice(['euclidean2', 'euclidean2', 'euclidean'])))
         elif r < 0.9:
-            if rng.random() < 0.05:
-                shape = rng.choice([[5], [2, 3, 2]])
+            if rng.random() < 0.4:                         # every rank (round 4: gvoronoi is n-D), elongated shapes included
+                shape = _rand_shape(rng)
             elif rng.random() < 0.3:
                 shape = rng.choice([[1, rng.choice([9, 20, 41])], [rng.choice([9, 20, 41]), 1]])
             else:
@@ -399,6 +407,26 @@ def cases(rng, tier):
             for q in pos:
                 data[q] = 0
             rands.append(dict(kind='dist', shape=shape, dtype='bool', data=data, layout='C', metric='euclidean2', lite=True))
+    # size-threshold stream: lines crossing 2^16 (+-1) inside n-D arrays (1-D, 1 x n x 1, n x 1 x 1, 1 x 1 x 1 x n): the per-axis
+    # line loop of distance()/gvoronoi() for ranks other than 2, and the 2-D kernel on n x 2; an index, root position or
+    # origin narrowed to 16 bits passes every small case. Specification only (`lite`: O(N * #sources) in the driver).
+    nthr = dict(quick=3, thorough=12, search=4)[tier]
+    for i in range(nthr):
+        n = rng.choice([65535, 65536, 65537, 65537, 66000 + rng.randrange(3000)])
+        shape = rng.choice([[n], [1, n, 1], [n, 1, 1], [1, 1, 1, n], [n, 2], [2, n]])
+        N = int(np.prod(shape))
+        pos = sorted({rng.randrange(N) for _ in range(rng.randint(2, 5))} | {N - 1 - rng.randrange(3), rng.randrange(3)}
+                     | {65535 + rng.randrange(-1, 2) for _ in range(2) if N > 65537})
+        if i % 2 == 0:
+            data = [1] * N
+            for q in pos:
+                data[q] = 0
+            rands.append(dict(kind='dist', shape=shape, dtype='bool', data=data, layout='C', metric='euclidean2', lite=True, size='threshold'))
+        else:
+            data = [0] * N
+            for k, q in enumerate(pos):
+                data[q] = 65530 + k
+            rands.append(dict(kind='gvor', shape=shape, dtype=rng.choice(['int32', 'uint32']), data=data, layout='C', lite=True, size='threshold'))
     return _interleave(out, blocks, rands)
 
 
